@@ -844,7 +844,10 @@ package tacquito
 //@   loop 1 invariant -1 <= rangeindex && rangeindex < len(args)
 //@   loop 1 invariant len(v) == rangeindex + 1
 
+// (C06: the error reply reuses the request's header; only its sequence number and length change,
+// so version, type, flag octet and session id are the request's — the frame says so.)
 //@ func (c crypter) detectBadSecret(p *Packet) (reply *Packet, err error)
+//@   props C06
 //@   requires p != nil && p.Header != nil
 //@   modifies p.Header.SeqNo, p.Header.Length
 //@   ensures[C19] err == nil
